@@ -24,6 +24,7 @@ def consts_under(t, ops):
 
 
 def run(ck):
+    ck.rule('C14.e', 'the buffer and chunk-list source drivers the octet-wise decoder reads through deliver every unread octet in order and report the end of data only when no chunk is left (C17.g, C17.h re-evaluated): buffer decoder and source decoder see the same octets')
     ck.rule('C14.a', 'varint_decode: every octet read buf[offset+i] is proved inside the buffer (offset+i+1 <= used/size) by the path guards; failing paths leave the buffer untouched; offset advances by exactly the consumed count')
     ck.rule('C14.b', 'sibling agreement: buffer decoder and source decoder use the same data mask, shift step, terminator test, bound and error code; encoder and length query the same shift step / stop test / counting')
     ck.rule('C14.c', 'constants: 7 data bits, mask 0x7f, continuation 0x80, max octets ceil(32/7)=5 and ceil(64/7)=10 (compiler-evaluated)')
@@ -50,7 +51,9 @@ def run(ck):
     rule_b(ck, u, eng, P)
     rule_c(ck, u)
     rule_d(ck, u)
-
+    from .common import reevaluate
+    reevaluate(ck, 'C14.e', 'c17', lambda r, k: r == 'C17.g' or (r == 'C17.h'),
+               'the source decoder reads its octets through the buffer / chunk-list drivers: they deliver the unread octets of the buffer, of every chunk in turn, and report the end only when none is left')
 
 def rule_a(ck, u, eng, paths):
     where = cast.where(u.fn('varint_decode'))
